@@ -6,5 +6,5 @@ cd /verif
 while read -r name props; do
   [[ -z "$name" || "$name" == \#* ]] && continue
   [[ -n "${1:-}" && "$name" != $1* ]] && continue
-  tools/mutant.sh "mutants/$name.diff" "$props" 2>&1 | grep '^MUTANT' | sed "s#mutants/##; s#\.diff##" | while read -r l; do echo "- $(date -u +%H:%M) $l"; done | tee -a mutants/RESULTS.md
+  tools/mutant.sh "mutants/$name.diff" "$props" 2>&1 | grep '^MUTANT' | sed "s#/verif/mutants/##; s#mutants/##; s#\.diff##" | while read -r l; do echo "- $(date -u +%H:%M) $l"; done | tee -a mutants/RESULTS.md
 done < mutants/MAP
